@@ -508,8 +508,14 @@ func runC02(c *mon.Ctx) {
 			cur := obj
 			var signedBytes []byte
 			for i, s := range signers {
-				text := sc.Bytes(cur)
+				text, intact := mon.Guarded(sc.Bytes(cur))
 				out, err := gmsl.SignJSON(s.name, s.kid, s.priv, text)
+				if d := intact(); d != "" {
+					c.Failf("sign:callers-buffer-written", "SignJSON: %s", d)
+				}
+				if err == nil {
+					c.Retain("sign", "the result of SignJSON", out)
+				}
 				if err != nil {
 					c.Failf("sign:refuses-valid-object", "SignJSON(%q,%q) on %q: %v", s.name, s.kid, text, err)
 					return
@@ -549,9 +555,13 @@ func runC02(c *mon.Ctx) {
 						return
 					}
 				}
-				if err := gmsl.VerifyJSON(s.name, s.kid, s.pub, out); err != nil {
+				vin, vintact := mon.Guarded(out)
+				if err := gmsl.VerifyJSON(s.name, s.kid, s.pub, vin); err != nil {
 					c.Failf("verify:rejects-own-signature", "VerifyJSON(%q,%q) on fresh SignJSON output %q: %v", s.name, s.kid, out, err)
 					return
+				}
+				if d := vintact(); d != "" {
+					c.Failf("verify:callers-buffer-written", "VerifyJSON: %s", d)
 				}
 				if !refVerify(sv, s) {
 					c.Failf("sign:signature-not-over-canonical-projection", "independent ed25519 check over the canonical object without signatures/unsigned fails for %q", out)
